@@ -338,8 +338,14 @@ def lines_proc(cmd, inputs, env=None, timeout=600, cwd=None, idle=None):
     t_end = time.time() + timeout
     last = time.time()
     hung = None
+    prev = time.time()
     while True:
         now = time.time()
+        if now - prev > 5:
+            # the harness itself was not running (machine suspended, DESIGN section 0 episode 17): that time does not count
+            last += now - prev
+            t_end += now - prev
+        prev = now
         if now >= t_end:
             hung = "still running after %d s" % timeout
         elif idle and now - last >= idle:
@@ -394,6 +400,9 @@ def probe(inputs, binary=None, timeout=600, extra_env=None, idle=None):
             break
         # process died (or was killed because it hung) on input number len(got)
         results.append({"died": True, "rc": rc, "stderr": err[-300:], **({"hung": True} if rc == "hung" else {})})
+        if rc == "hung" and idle:
+            # one hang is already a finding; the ops behind it are still run, with less patience
+            idle = max(20, idle // 3)
         todo = todo[len(got) + 1:]
     return results
 
